@@ -13,6 +13,7 @@ import (
 	"strings"
 	"sync"
 	"sync/atomic"
+	"syscall"
 	"time"
 
 	"github.com/goose-lang/goose/machine/filesys"
@@ -36,6 +37,44 @@ func stressFsChild(args []string) int {
 	fmt.Sscan(args[2], &nh)
 	fmt.Sscan(args[3], &maxm)
 	scratch, out := args[4], args[5]
+	if len(args) > 6 && args[6] == "delay" {
+		dd := mustMkdir(filepath.Join(scratch, "fsdelay-dummy"))
+		dfd, err := syscall.Open(filepath.Join(dd, "f"), syscall.O_CREAT|syscall.O_RDWR, 0644)
+		if err != nil {
+			fmt.Println(err)
+			return 3
+		}
+		var n atomic.Int64
+		fsPerturb = func(r *rand.Rand) {
+			x := r.IntN(64)
+			one := []byte{1}
+			if x&1 != 0 {
+				if fd, err := syscall.Open(filepath.Join(dd, "f"), syscall.O_RDONLY, 0); err == nil { // openat + close
+					_ = syscall.Close(fd)
+				}
+			}
+			if x&2 != 0 {
+				p2 := filepath.Join(dd, fmt.Sprintf("l%d", n.Add(1)))
+				if syscall.Link(filepath.Join(dd, "f"), p2) == nil { // linkat + unlinkat
+					_ = syscall.Unlink(p2)
+				}
+			}
+			if x&4 != 0 {
+				_, _ = syscall.Write(dfd, one)
+			}
+			if x&8 != 0 {
+				_, _ = syscall.Pread(dfd, one, 0)
+			}
+			if x&16 != 0 {
+				var st syscall.Stat_t
+				_ = syscall.Fstat(dfd, &st)
+				_ = syscall.Stat(filepath.Join(dd, "f"), &st)
+			}
+			if x&32 != 0 {
+				_ = syscall.Rename(filepath.Join(dd, "nonexistent"), filepath.Join(dd, "nonexistent2")) // renameat (fails)
+			}
+		}
+	}
 	rr := rand.New(rand.NewPCG(seed, 1401))
 	var nextU int64
 	var evs []map[string]any
@@ -74,8 +113,15 @@ type fsLinClient struct {
 	nPriv int
 }
 
+// fsPerturb, if set (child run under strace delay injection), is called by a client on its own locked OS thread
+// right before each operation: dummy system calls that flip the per-thread parity of the delayed system calls.
+var fsPerturb func(r *rand.Rand)
+
 func (c *fsLinClient) call(inv map[string]any, f func() map[string]any) map[string]any {
 	inv["ev"], inv["c"] = "inv", c.g
+	if fsPerturb != nil && c.g != 99 {
+		fsPerturb(c.r)
+	}
 	s1 := c.seq.Add(1)
 	res := map[string]any{"ev": "res", "c": c.g, "p": 0}
 	func() {
@@ -376,6 +422,10 @@ func stressFs(fs filesys.Filesys, isDir bool, k, m int, r *rand.Rand, nextU *int
 		wg.Add(1)
 		go func(c *fsLinClient) {
 			defer wg.Done()
+			if fsPerturb != nil {
+				runtime.LockOSThread()
+				defer runtime.UnlockOSThread()
+			}
 			<-start
 			for i := 0; i < m; i++ {
 				c.step()
@@ -644,6 +694,60 @@ func C14(c *ev.Ctx) {
 			}
 		}
 		c.AddTraces(nh - bad)
+	}
+	// (3b) DirFs again with the system calls slowed down selectively (strace delay injection): the windows between
+	// the system calls of one operation (check-then-act) become wide
+	{
+		outFile := filepath.Join(c.Scratch, "hist-dir-delay.ndjson")
+		self, _ := os.Executable()
+		a := []string{"-f", "-qq", "-o", "/dev/null", "-e", "trace=openat,open,linkat,unlinkat,renameat,renameat2,write,pread64,fstat,newfstatat,getdents64,mkdirat"}
+		for _, sc := range []string{"openat", "linkat", "unlinkat", "renameat", "renameat2", "write", "pread64", "fstat", "newfstatat", "getdents64"} {
+			a = append(a, "-e", fmt.Sprintf("inject=%s:delay_enter=700:when=2+2", sc))
+		}
+		nd := c.Pick(25, 250)
+		a = append(a, self, "-child", "stress-fs", fmt.Sprint(c.Seed+5), "dir", fmt.Sprint(nd), "8", c.Scratch, outFile, "delay")
+		o, err, timedOut := runWithDeadline(exec.Command("strace", a...), time.Duration(c.Pick(8, 30))*time.Minute)
+		switch {
+		case timedOut && hangInside(o, "machine/filesys"):
+			c.Violation("hang-dir", "the concurrent driver (under delay injection) never finished: an operation of the library is blocked for good\n"+tlc.Tail(o, 40), map[string]string{"goroutines.txt": o})
+		case timedOut || err != nil || !strings.Contains(o, "STRESS-DONE"):
+			c.Inconclusive("delayed DirFs driver failed (%v, timed out %v): %s", err, timedOut, tlc.Tail(o, 12))
+		default:
+			var evs []map[string]any
+			seg := map[int]string{}
+			hb, _ := os.ReadFile(outFile)
+			for _, ln := range strings.Split(strings.TrimSpace(string(hb)), "\n") {
+				var e map[string]any
+				if json.Unmarshal([]byte(ln), &e) == nil {
+					if e["ev"] == "reset" {
+						seg[len(evs)] = fmt.Sprint(e["desc"]) + " (strace delay injection)"
+						total++
+					}
+					evs = append(evs, e)
+				}
+			}
+			overl += overlapScore(evs)
+			if err := writeNDJSON(filepath.Join(dir, "trace.ndjson"), evs); err == nil {
+				tr := tlc.Run{Dir: dir, Module: "FsLinTrace", Workers: 1, DFS: true, Timeout: time.Duration(c.Pick(6, 25)) * time.Minute, HeapMB: 12000, StackMB: 64}.Do()
+				c.AddTLC(tr)
+				hw := 0
+				for _, p := range tr.Prints {
+					fmt.Sscanf(strings.Trim(p, `"`), "%d", &hw)
+				}
+				switch {
+				case tr.NoError && tr.Violated == "":
+					c.AddTraces(nd)
+					c.Set("dir_delayed_histories", nd)
+				case tr.Violated != "postcondition" || tr.TimedOut || hw < 1 || hw > len(evs):
+					c.Inconclusive("FsLinTrace (delayed DirFs histories) did not run cleanly:\n%s", tlc.Tail(tr.Out, 25))
+				default:
+					at := hw - 1
+					st := segmentStart(evs, at)
+					c.Violation("lin-dir", fmt.Sprintf("concurrent history of %s is not linearizable w.r.t. FsSem: event %d %s cannot be matched\n%s", seg[st], at-st+1, jsonStr(evs[at]), window(evs, at, 14, 1)),
+						map[string]string{"trace.ndjson": ndjsonString(evs[st:min(len(evs), at+30)]), "history.txt": seg[st]})
+				}
+			}
+		}
 	}
 	c.Set("histories", total)
 	c.Set("evaluations", total+forced)
